@@ -69,7 +69,11 @@ func (s UniformSampler) ReadNew() (p Poly) {
 }
 
 func (s UniformSampler) WithPRNG(prng sampling.PRNG) UniformSampler {
-	sp := UniformSampler{samplerQ: s.samplerQ.WithPRNG(prng)}
+	// Either part can be absent (a level view without Q, a ring without P).
+	var sp UniformSampler
+	if s.samplerQ != nil {
+		sp.samplerQ = s.samplerQ.WithPRNG(prng)
+	}
 	if s.samplerP != nil {
 		sp.samplerP = s.samplerP.WithPRNG(prng)
 	}
